@@ -193,9 +193,10 @@ def solve_sat(
 
     def unassign_to(level):
         nonlocal prop_head
-        while len(trail_lim) > level:
-            trail_lim.pop()
-        target = trail_lim[-1] if trail_lim else 0
+        if len(trail_lim) <= level:
+            return
+        target = trail_lim[level]
+        del trail_lim[level:]
         while len(trail) > target:
             var = trail.pop()
             phase[var] = vals[var] == 1
@@ -401,9 +402,13 @@ def solve_sat(
             add_watch(clause[0], i)
             add_watch(clause[1], i)
 
-    for var, val in find_pure_literals():
-        if vals[var] == UNDEF:
-            assign(var, val, -1)
+    # Pure literals keep satisfiability but not the set of models: only use them
+    # when a single solution is wanted, and never against an assumption
+    if solution_limit == 1:
+        assumed_vars = {lit_var(lit) for lit in assumptions}
+        for var, val in find_pure_literals():
+            if vals[var] == UNDEF and var not in assumed_vars:
+                assign(var, val, -1)
 
     for lit, idx in unit_clauses:
         var = lit_var(lit)
